@@ -142,18 +142,21 @@ FailOp(ph) ==
 \* the test ends: post-test action of the plugin (as coded: count the blocks stamped "checking").
 \* keep: the test output keeps a tracked copy of a leak failure it is given - allocated while the failure is being
 \* reported, i.e. after the end of the test (a step with keep is numbered like an allocation step)
-End(keep) ==
+\* pf: another plugin whose post action runs before the leak plugin's (MockSupportPlugin installed before RunAllTests, for
+\* instance) reports a failure straight into the result - the test has then "already failed" when the leak verdict is taken
+End(keep, pf) ==
     /\ cur # 0
     /\ LET leaks == Checking
-           lf == ~ignore /\ expected # Cardinality(leaks) /\ failures = failAtStart
+           fb == failures + (IF pf THEN 1 ELSE 0)
+           lf == ~ignore /\ expected # Cardinality(leaks) /\ fb = failAtStart
            copy == IF keep /\ lf THEN {[id |-> nextId, period |-> "enabled", owner |-> 0]} ELSE {} IN
-       /\ failures' = failures + (IF lf THEN 1 ELSE 0)
-       /\ out' = [ran |-> TRUE, leakfail |-> lf, listed |-> IF lf THEN Ids(leaks) ELSE {}, own |-> failures - failAtStart,
-                  failures |-> failures + (IF lf THEN 1 ELSE 0), kept |-> Cardinality(copy)]
+       /\ failures' = fb + (IF lf THEN 1 ELSE 0)
+       /\ out' = [ran |-> TRUE, leakfail |-> lf, listed |-> IF lf THEN Ids(leaks) ELSE {}, own |-> fb - failAtStart,
+                  failures |-> fb + (IF lf THEN 1 ELSE 0), kept |-> Cardinality(copy)]
        /\ hist' = Append(hist, [t |-> cur, leakFailure |-> lf, listed |-> IF lf THEN Ids(leaks) ELSE {},
                                 \* ghost, in the words of the property statement:
                                 mine |-> { b.id : b \in { x \in blocks : x.owner = cur } },   \* allocated by this test, still outstanding
-                                expected |-> expected, ignore |-> ignore, ownFailed |-> failures # failAtStart])
+                                expected |-> expected, ignore |-> ignore, ownFailed |-> fb # failAtStart])
        /\ blocks' = { IF b.period = "checking" THEN [b EXCEPT !.period = "enabled"] ELSE b : b \in blocks } \cup copy
     /\ nextId' = IF keep THEN nextId + 1 ELSE nextId
     /\ period' = "enabled" /\ expected' = 0 /\ ignore' = FALSE
@@ -168,7 +171,7 @@ Final ==
 
 OpPhases == IF cur = 0 THEN {"o"} ELSE Phases
 Next == \/ ntests < MaxTests /\ Begin
-        \/ \E keep \in BOOLEAN : (keep => nextId <= MaxBlocks) /\ End(keep)
+        \/ \E keep \in BOOLEAN, pf \in BOOLEAN : (keep => nextId <= MaxBlocks) /\ End(keep, pf)
         \/ /\ nops < MaxOps
            /\ \E ph \in OpPhases :
                  \/ nextId <= MaxBlocks /\ AllocOp(ph)
